@@ -25,7 +25,7 @@ impl Scenario for DmaBatches {
         false
     }
     fn quick_runs(&self, _f: &str) -> u64 {
-        256 * 24
+        256 * 96
     }
     fn chunk(&self) -> u64 {
         128
